@@ -180,7 +180,8 @@ def check_rerun(case) -> Result:
     try:
         for ep in range(2):
             for j, r in enumerate(sched):
-                S.run_op(b, dict(r, op='run', control=ctl, new_solver=(ep == 1 and j == 0 and case['new_solver'])))
+                S.run_op(b, dict(r, op='run', control=ctl and r.get('control', True),
+                                 new_solver=(ep == 1 and j == 0 and case['new_solver'])))
             epochs.append(S.Trace(b))
             if ep == 0:
                 # The duty cycle is re-applied as part of the initial conditions - except, when the case asks for it and
@@ -299,6 +300,10 @@ def s_rerun(draw, max_steps=40):
     if draw(st.integers(0, 2)) == 0:
         sched.append(G.s_run(draw, mdl, max_steps=max_steps // 2))
     case['schedule'] = [{'dt': r['dt'], 'T': r['T']} for r in sched]
+    if len(sched) == 2 and draw(st.integers(0, 2)) == 0:
+        # the motor control is handed to only one of the two segments (the other runs open loop on the duty cycle left
+        # by what came before)
+        case['schedule'][draw(st.integers(0, 1))]['control'] = False
     case['new_solver'] = draw(st.booleans())
     case['leave_pwm'] = draw(st.booleans())
     case['history'] = []
